@@ -143,6 +143,13 @@ def fit_event(cfg, model, data, strat, want, first=None):
         ev["mb_hologram"] = quant.mb(quant.reldiff(np.asarray(holo.values).ravel(), np.asarray(f_res.values).ravel()))
         lp = res.max_lnprob
         ev["mb_lnprob"] = quant.mb(abs(float(lp) - float(model.lnposterior(pars, res.data))) / max(1.0, abs(float(lp))))
+        # ... and against the Gaussian log-density written out on the forward hologram (noise 0.05, the priors' own densities)
+        fd = model.forward(pars, res.data)
+        rr = (np.asarray(fd.values, dtype=float) - np.asarray(res.data.values, dtype=float)).ravel()
+        sg = 0.05
+        oracle = -rr.size / 2 * math.log(2 * math.pi) - rr.size * math.log(sg) - 0.5 * float(np.sum((rr / sg) ** 2)) \
+            + sum(float(model.parameters[k].lnprob(float(v))) for k, v in pars.items())
+        ev["mb_lnprob"] = max(ev["mb_lnprob"], quant.mb(abs(float(lp) - oracle) / max(1.0, abs(oracle))))
     ev["model_unchanged"] = bool(yaml_text(model) == m_txt)
     ev["strategy_unchanged"] = bool(yaml_text(strat) == s_txt)
     ev["data_unchanged"] = bool(fp.fingerprint(data) == d_fp)
